@@ -476,6 +476,10 @@ func check(prop, tier string, seed int64, scratch string, t0 time.Time) int {
 			okN = 5 // the worker deaths themselves were observed (repeatedly); there is no input to replay
 		} else {
 			okN, badN, detail = confirm(worker, extraEnv, prop, tier, path, f.Fingerprint, 5)
+			if okN == 0 && (strings.HasPrefix(f.Fingerprint, "cold:") || strings.HasPrefix(f.Fingerprint, "stress:")) {
+				// free-running rounds depend on real timing: give them more fresh processes
+				okN, badN, detail = confirm(worker, extraEnv, prop, tier, path, f.Fingerprint, 20)
+			}
 		}
 		// A failure is confirmed when it shows again in a fresh process - with whatever fingerprint:
 		// the oracles are deterministic functions of what the library returns, but the library's own
